@@ -29,7 +29,7 @@ REQUIRED = {"dim1": 0.1, "dim2": 0.1, "dim3": 0.1, "rot-axis": 0.1, "rot-random"
 
 @st.composite
 def _spec(draw, tier):
-    g = draw(grid_spec(rigid=False, gmsh=(tier == "thorough"), scales=True))
+    g = draw(grid_spec(rigid=False, gmsh=(tier == "thorough"), scales=True, arrow=True))
     r = draw(rigid_spec(identity_ok=False))
     return {"grid": g, "motion": r}
 
